@@ -1344,7 +1344,7 @@ func TestVerifC08(t *testing.T) {
 		t.Logf("c08: enumerated %d histories of depth 3", n)
 	}
 	rng := vu.Rand(8)
-	ncfg, nseg, steps := 24, 160, 45
+	ncfg, nseg, steps := 30, 300, 45
 	if vu.Thorough() {
 		ncfg, nseg, steps = 150, 6000, 60
 	}
